@@ -1,0 +1,39 @@
+//go:build verif
+
+package filesystem
+
+import "github.com/cossacklabs/acra/keystore"
+
+// Verification hooks (add-only, compiled only with -tags verif): unexported name builders
+// and the file-name -> key-context mapping used by KeyBackuper.
+
+// VerifFilename returns the v1 key file name of the given kind for a client id.
+func VerifFilename(kind string, id []byte) string {
+	switch kind {
+	case "storage":
+		return GetServerDecryptionKeyFilename(id)
+	case "storage_pub":
+		return getPublicKeyFilename([]byte(GetServerDecryptionKeyFilename(id)))
+	case "storage_sym":
+		return getClientIDSymmetricKeyName(id)
+	case "hmac":
+		return getHmacKeyFilename(id)
+	}
+	return ""
+}
+
+// VerifPrivatePath is KeyStore.GetPrivateKeyFilePath.
+func VerifPrivatePath(store *KeyStore, filename string) string {
+	return store.GetPrivateKeyFilePath(filename)
+}
+
+// VerifContextFromFilename is getContextFromFilename.
+func VerifContextFromFilename(name string) keystore.KeyContext { return getContextFromFilename(name) }
+
+// VerifIsPrivate is isPrivate.
+func VerifIsPrivate(name string) bool { return isPrivate(name) }
+
+// VerifSetCache replaces the key cache of a v1 keystore (recording wrapper of the harness).
+func VerifSetCache(store *KeyStore, wrap func(keystore.Cache) keystore.Cache) {
+	store.cache = wrap(store.cache)
+}
